@@ -39,6 +39,8 @@ def arith (op : BinOp) (x y : Val) : PyM Val :=
   match x, y with
   | .err, _ => .ok .err                        -- `CELEvalError.__add__` … return self
   | .int a, .int b => intArith op a b
+  | .str a, .str b => if op == .add then .ok (.str (a ++ b)) else unk
+  | .list a, .list b => if op == .add then .ok (.list (a ++ b)) else unk
   | .int _, .err => te                         -- `IntType(NotImplemented)`
   | .int _, .str _ => te
   | .int _, .list _ => te
@@ -94,16 +96,16 @@ def eqRaw : Val → Val → Option (PyM Bool)
   | .int _, .str _ => some (.error .typeError)
   | .int _, .null => some (.error .typeError)
   | .int _, .list _ => some (.error .typeError)
-  | .bool _, .int _ => some (.error .typeError)
-  | .bool _, .str _ => some (.error .typeError)
-  | .bool _, .null => some (.error .typeError)
+  | .bool a, .int b => some (.ok (b2i a == b))          -- `BoolType` inherits `int.__eq__`
+  | .bool _, .str _ => some (.ok false)
+  | .bool _, .null => some (.ok false)
   | .bool _, .list _ => some (.error .typeError)
   | .str _, .int _ => some (.error .typeError)
-  | .str _, .bool _ => some (.error .typeError)
+  | .str _, .bool _ => some (.ok false)
   | .str _, .null => some (.ok false)
   | .str _, .list _ => some (.error .typeError)
   | .null, .int _ => some (.error .typeError)
-  | .null, .bool _ => some (.error .typeError)
+  | .null, .bool _ => some (.ok false)
   | .null, .str _ => some (.ok false)
   | .null, .list _ => some (.ok false)
   | .list _, .null => some (.ok false)
@@ -129,10 +131,8 @@ def eqOp (neg : Bool) (x y : Val) : PyM Val :=
   match x, y with
   | .err, _ => .ok .err
   | _, .err => .ok .err
-  | .list _, .null => if neg then unk else .ok (.bool false)
-  | .null, .list _ => if neg then unk else .ok (.bool false)
-  | .str _, .null => if neg then unk else .ok (.bool false)
-  | .null, .str _ => if neg then unk else .ok (.bool false)
+  | .list _, .null => if neg then te else .ok (.bool false)      -- `ListType.__ne__(None)` raises
+  | .null, .list _ => if neg then te else .ok (.bool false)
   | x, y =>
     match eqRaw x y with
     | some (.ok b) => .ok (.bool (if neg then !b else b))
@@ -222,7 +222,9 @@ def baseFunctions : List String :=
 
 def isFun (f : String) : Bool := baseFunctions.contains f
 
-def sem : Sem := { prim := prim, isFun := isFun }
+def strictFn (f : String) : Bool := f == "size"
+
+def sem : Sem := { prim := prim, isFun := isFun, strictFn := strictFn, iter := iterV, toBool := boolTypeOf }
 
 end PrimD
 end Cel
